@@ -6,6 +6,7 @@ mod flavour;
 mod l1;
 mod l2;
 mod l4;
+mod lin;
 #[cfg(feature = "l3")]
 mod l3;
 mod quarantine;
